@@ -77,8 +77,10 @@ def monitor_timing(case):
     kind = [None] * n
     s_started = [0] * n
     f_started = [0] * n
-    s_rsp = [0] * n
+    s_rsp = [0] * n   # instructions whose last-marked response arrived (what the simulator counts)
     f_rsp = [0] * n
+    s_fin = [0] * n   # instructions none of whose transactions is in flight any more
+    f_fin = [0] * n
     mapped = 0
     gid_of = {}
     end_tick = {}
@@ -95,8 +97,8 @@ def monitor_timing(case):
         sd = [e for e in evs if e['e'] == 'sdone']
         for e in sd:
             w = e.get('w', 0)
-            sc = s_started[w] + f_started[w] - s_rsp[w] - f_rsp[w]
-            vc = f_started[w] - f_rsp[w]
+            sc = s_started[w] + f_started[w] - s_fin[w] - f_fin[w]
+            vc = f_started[w] - f_fin[w]
             if e['k'] == 'end':
                 if sc != 0 or vc != 0:
                     return 'wavefront %d ended with %d scalar / %d vector memory operations in flight' % (w, sc, vc)
@@ -133,6 +135,12 @@ def monitor_timing(case):
                     s_rsp[w] += 1
                 else:
                     f_rsp[w] += 1
+            elif e['e'] == 'mfin':
+                w = e.get('w', 0)
+                if e['k'] == 's':
+                    s_fin[w] += 1
+                else:
+                    f_fin[w] += 1
             elif e['e'] == 'map':
                 g = e.get('g', 0)
                 for i in range(e['n']):
@@ -199,7 +207,7 @@ def monitor(case):
 
 
 def strip(case):
-    return {k: case[k] for k in ('name', 'nwf', 'nwg', 'prog') if k in case}
+    return {k: case[k] for k in ('name', 'nwf', 'nwg', 'pen', 'prog') if k in case}
 
 
 def run_impl(binary, cases=None, seed=1, n=40, timeout=4000):
@@ -226,7 +234,7 @@ def nontrivial(case):
         return False
     bars = sum(1 for e in t['evs'] if e['e'] == 'sdone' and e['k'] == 'bar')
     waited = any(e['e'] == 'chk' and any(x == 2 for x in e.get('st', [])) and len(e.get('int', [])) > 0 for e in t['evs'])
-    return (bars >= 2 and case['nwf'] >= 2) or (waited and any(s['op'] in ('fload', 'sload') for s in case['prog']))
+    return (bars >= 2 and case['nwf'] >= 2) or (waited and any(s['op'] in ('fload', 'floadu', 'sload') for s in case['prog']))
 
 
 def main(argv):
@@ -302,9 +310,9 @@ def main(argv):
     rep.coverage.update({
         'evaluations': len(cases),
         'distinct_nontrivial': len({vlib.case_hash(strip(c)) for c in cases if nontrivial(c)}),
-        'rule': 'random well-formed micro-programs (3-20 statements: barriers, guarded early exits, flat/scalar loads, wait counts with '
+        'rule': 'random well-formed micro-programs (3-20 statements: barriers, guarded early exits, flat/scalar loads incl. loads straddling cache lines unevenly, a third of the memory programs on a CU with coalescing penalty 3, wait counts with '
                 'thresholds {0,1,2,3,15}, LDS exchanges, guarded delays), 1..16 wavefronts x 1..21 work-groups on one compute unit, every 5th '
-                'a corner shape (full barrier buffer, exit while buffer full, ladders, staggered exits, loads in flight at exit); '
+                'a corner shape (full barrier buffer, exit while partners are held, ladders, staggered exits, slow exit as last event of a barrier followed by more barriers with a late arrival, straddling load/wait/use, loads in flight at exit); '
                 'non-trivial = >= 2 barrier releases with >= 2 wavefronts, or a scheduler-held instruction with loads in the program',
         'traces_validated_against_impl': len(idx),
         'issued_instruction_histogram': dict(hist),
